@@ -176,7 +176,7 @@ class TeeFilter(Filter):
 
     def __eq__(self, other):
         return (self.__class__ is other.__class__
-                and self.filters == other.fitlers)
+                and self.filters == other.filters)
 
     def __call__(self, tokens):
         from itertools import tee
